@@ -347,6 +347,28 @@ func (in *Interp) callName(c *ast.CallExpr) string {
 	return ""
 }
 
+// reT is a package-level regexp held in a local variable or parameter.
+type reT struct{ name string }
+
+// regexpOf resolves the receiver of a regexp method: a package-level regexp named directly, or a local
+// variable / parameter bound to one.
+func (in *Interp) regexpOf(x ast.Expr, ev *env) (*pats.Var, string) {
+	id, ok := ast.Unparen(x).(*ast.Ident)
+	if !ok {
+		return nil, ""
+	}
+	if v, ok := ev.vars[id.Name]; ok {
+		if r, ok := v.(reT); ok {
+			return in.Vars[r.name], r.name
+		}
+		return nil, ""
+	}
+	if obj, ok := in.Pkg.TypesInfo.Uses[id].(*types.Var); ok && obj.Parent() == in.Pkg.Types.Scope() && in.Vars[id.Name] != nil {
+		return in.Vars[id.Name], id.Name
+	}
+	return nil, ""
+}
+
 // value evaluates an expression to an abstract value.
 func (in *Interp) value(e ast.Expr, ev *env) any {
 	e = ast.Unparen(e)
@@ -377,6 +399,11 @@ func (in *Interp) value(e ast.Expr, ev *env) any {
 		}
 		// package-level keyword list
 		if obj, ok := in.Pkg.TypesInfo.Uses[x].(*types.Var); ok && obj.Parent() == in.Pkg.Types.Scope() {
+			if in.Vars[x.Name] != nil {
+				// a package-level regexp passed around as a value (its pattern table entry already requires a
+				// single compile-time definition)
+				return reT{name: x.Name}
+			}
 			if !in.pkgVarImmutable(obj) {
 				in.fail("package-level variable %s is assigned somewhere in the package", x.Name)
 			}
@@ -586,10 +613,11 @@ func (in *Interp) call(c *ast.CallExpr, ev *env) any {
 		// string(R.ReplaceAll([]byte(x), []byte{}))
 		if inner, ok := ast.Unparen(c.Args[0]).(*ast.CallExpr); ok {
 			if sel, ok := inner.Fun.(*ast.SelectorExpr); ok && sel.Sel.Name == "ReplaceAll" {
-				rv, ok := sel.X.(*ast.Ident)
-				if !ok || in.Vars[rv.Name] == nil || !in.Vars[rv.Name].Const {
+				rvar, rname := in.regexpOf(sel.X, ev)
+				if rvar == nil || !rvar.Const {
 					in.fail("ReplaceAll on an unknown regexp")
 				}
+				rv := &ast.Ident{Name: rname}
 				conv, ok := ast.Unparen(inner.Args[0]).(*ast.CallExpr)
 				if !ok || len(conv.Args) != 1 {
 					in.fail("ReplaceAll subject is not []byte(x)")
@@ -602,7 +630,7 @@ func (in *Interp) call(c *ast.CallExpr, ev *env) any {
 				if !ok {
 					in.fail("ReplaceAll subject not derived from the value")
 				}
-				M, err := relang.FromRegexp("^(?:"+in.Vars[rv.Name].Pattern+")$", in.E.A)
+				M, err := relang.FromRegexp("^(?:"+rvar.Pattern+")$", in.E.A)
 				if err != nil {
 					in.fail("regexp %s: %v", rv.Name, err)
 				}
@@ -647,8 +675,8 @@ func (in *Interp) call(c *ast.CallExpr, ev *env) any {
 	}
 	// regexp method on a package-level regexp
 	if sel, ok := c.Fun.(*ast.SelectorExpr); ok {
-		if rv, ok := sel.X.(*ast.Ident); ok && in.Vars[rv.Name] != nil {
-			v := in.Vars[rv.Name]
+		if v, rname := in.regexpOf(sel.X, ev); v != nil {
+			rv := &ast.Ident{Name: rname}
 			if !v.Const {
 				in.fail("regexp %s has no constant pattern", rv.Name)
 			}
